@@ -130,6 +130,11 @@ theorem inv2_step (s : St) (a : Act) (s' : St) (hi : Inv2 s) (h : step s a = som
         exact ⟨live_erase s j h1 (by intro d' hd'; rw [hjdel] at hd'; cases hd'; exact h2 _ hc), h2, h3⟩
       · cases h
     · cases h
+  | cbMark f d inl =>
+    simp only [step] at h
+    (repeat' split at h) <;> first
+      | (cases h; exact ⟨h1, h2, h3⟩)
+      | cases h
   | cbPolicy d r =>
     simp only [step] at h
     split at h
